@@ -303,12 +303,115 @@ def coq_bytes(hexs):
     return "[" + ";".join("x" + hexs[i:i + 2] for i in range(0, len(hexs), 2)) + "]"
 
 
+def coq_rec(v, f, ttl, cas):
+    return "(mkRec 0 %s %s %s %s)" % (cas, f, ttl, coq_bytes(v))
+
+
+def coq_mop(t):
+    p = t.split(":")
+    k = coq_bytes(p[1]) if len(p) > 1 else ""
+    if p[0] == "get":
+        return "MBase (OpGet %s)" % k
+    if p[0] == "set":
+        return "MBase (OpSet %s %s)" % (k, coq_rec(p[2], p[3], p[4], p[5]))
+    if p[0] == "del":
+        return "MBase (OpDel %s %s)" % (k, p[2])
+    if p[0] == "add":
+        return "MAdd %s %s" % (k, coq_rec(p[2], p[3], p[4], p[5]))
+    if p[0] == "replace":
+        return "MReplace %s %s" % (k, coq_rec(p[2], p[3], p[4], p[5]))
+    if p[0] == "append":
+        return "MAppend %s %s %s" % (k, p[2], coq_bytes(p[3]))
+    if p[0] == "prepend":
+        return "MPrepend %s %s %s" % (k, p[2], coq_bytes(p[3]))
+    if p[0] in ("incr", "decr"):
+        return "MDelta %s %s %s %s %s %s" % ("true" if p[0] == "incr" else "false", k, p[2], p[3], p[4], p[5])
+    raise ValueError("op " + t)
+
+
+def coq_pop(t):
+    p = t.split(":")
+    if p[0] == "get":
+        return "PoGet %s" % coq_bytes(p[1])
+    if p[0] == "set":
+        return "PoSet %s %s" % (coq_bytes(p[1]), coq_rec(p[2], p[3], p[4], p[5]))
+    if p[0] == "del":
+        return "PoDel %s %s" % (coq_bytes(p[1]), p[2])
+    if p[0] == "flush":
+        return "PoFlush %s" % p[1]
+    raise ValueError("op " + t)
+
+
+def coq_ores(t):
+    p = t.split(":")
+    if p[0] == "hit":
+        return "AHit %s %s %s" % (coq_bytes(p[1]), p[2], p[3])
+    if p[0] == "err":
+        return "AErr %s" % p[1]
+    if p[0] == "ok":
+        return "AOk %s" % p[1] if len(p) > 1 else "ADone"
+    if p[0] == "out-of-fuel":
+        return "AFuel"
+    raise ValueError("result " + t)
+
+
+def coq_conc_case(ci, il, mlc, lines, expected_lines):
+    """a case with a concurrent window (RUN on the plain store, PRUN behind the policy) as an
+    Example about Obs.obs_run2"""
+    evs, ths, pths, scans = [], [], [], "[]"
+    for l in lines[1:]:
+        p = l.split(" ")
+        if p[0] == "C":
+            evs.append("YEv (EvChunk %s%%nat %s)" % (p[1], coq_bytes(p[2])))
+        elif p[0] == "T":
+            evs.append("YEv (EvTick %s)" % p[1])
+        elif p[0] == "O":
+            vs = [] if len(p) == 1 else p[1].split(",")
+            evs.append("YEv (EvOracle [%s])" % ";".join(coq_bytes(v) for v in vs))
+        elif p[0] == "D":
+            evs.append("YDump")
+        elif p[0] == "TH":
+            ops = p[2].split("|") if len(p) > 2 and p[2] else []
+            ths.append("[%s]" % "; ".join(coq_mop(o) for o in ops))
+        elif p[0] == "PTH":
+            ops = p[2].split("|") if len(p) > 2 and p[2] else []
+            pths.append("[%s]" % "; ".join(coq_pop(o) for o in ops))
+        elif p[0] == "PSCANS":
+            scans = "[]" if p[1] == "none" else "[%s]" % "; ".join(
+                "[]" if ks == "-" else "[%s]" % "; ".join(coq_bytes(k) for k in ks.split(",")) for ks in p[1].split(";"))
+        elif p[0] in ("RUN", "PRUN"):
+            sched = "[]" if p[1] == "-" else "[%s]%%nat" % ";".join(p[1].split(","))
+            if p[0] == "RUN":
+                evs.append("YRun [%s] %s" % ("; ".join(ths), sched))
+                ths = []
+            else:
+                evs.append("YPRun [%s] %s %s" % ("; ".join(pths), scans, sched))
+                pths, scans = [], "[]"
+    exp = []
+    for l in expected_lines[1:]:
+        p = l.split(" ")
+        if p[0] == "R":
+            exp.append("YL (OR %s)" % coq_bytes(p[1]))
+        elif p[0] == "S":
+            exp.append("YL (OS %s%%nat %s %s %s)" % (p[1], p[2], p[3], p[4]))
+        elif p[0] == "M":
+            exp.append("YL (OM %s %s %s %s %s %s)" % (coq_bytes(p[1]), coq_bytes(p[2]), p[3], p[4], p[5], p[6]))
+        elif p[0] == "U":
+            exp.append("YL (OU %s %s %s)" % (p[1], p[2], p[3]))
+        elif p[0] in ("TR", "PR"):
+            rs = p[2].split(";") if len(p) > 2 and p[2] else []
+            exp.append("YT %s%%nat [%s]" % (p[1], "; ".join(coq_ores(r) for r in rs)))
+    return ("Example case_%d : obs_run2 (init_world %s %s) [%s] = [%s].\nProof. vm_compute. reflexivity. Qed.\n" % (
+        ci, il, mlc, "; ".join(evs), "; ".join(exp)))
+
+
 def coq_crosscheck(trace_path, work, sample, seed):
     """Evaluate a sample of cases inside Coq (vm_compute) and require the result to
     equal what the extracted runner printed (raw order)."""
     cases = split_cases(open(trace_path).read())
     if not cases:
         return True, 0, ""
+    os.makedirs(work, exist_ok=True)
     rnd = random.Random(seed)
     chosen = cases if len(cases) <= sample else rnd.sample(cases, sample)
     sub = os.path.join(work, "xc.trace")
@@ -328,12 +431,15 @@ def coq_crosscheck(trace_path, work, sample, seed):
             continue
         vf = os.path.join(work, "xc_%d.v" % si)
         with open(vf, "w") as f:
-            f.write("From MC Require Import Model.Base Model.Generated Model.Store Model.Codec Model.Conn Model.Run Model.Obs.\n")
+            f.write("From MC Require Import Model.Base Model.Generated Model.Store Model.Memc Model.Codec Model.Conn Model.Run Model.Conc Model.PolConc Model.Obs.\n")
             f.write("From Coq Require Import Init.Byte.\nOpen Scope N_scope.\n")
             for ci, (cid, lines) in enumerate(shard):
                 hdr = lines[0].split(" ")
                 il, ml = hdr[2], hdr[3]
                 mlc = "None" if ml == "none" else "(Some %s)" % ml
+                if any(l.startswith(("RUN ", "PRUN ")) for l in lines):
+                    f.write(coq_conc_case(ci, il, mlc, lines, expected.get(cid, [])))
+                    continue
                 evs = []
                 for l in lines[1:]:
                     p = l.split(" ")
@@ -385,7 +491,7 @@ PROPS = {
             "monitor_kinds": ["STUCK", "SLOW"], "relevant": "RMWT"},
     "C02": {"seq": [("cas", 1024, None, 80, 50), ("mix", 1024, None, 30, 40), ("ttl", 1024, None, 30, 40),
                     ("counter", 1024, None, 30, 40)], "conc": [("base", 200)], "monitor_kinds": ["STUCK"], "relevant": "RMWT"},
-    "C03": {"seq": [("cas", 1024, None, 20, 30)], "conc": [("base", 500)], "relevant": "RMT"},
+    "C03": {"seq": [("cas", 1024, None, 20, 30)], "conc": [("base", 500)], "pol": 150, "relevant": "RMTP"},
     "C04": {"seq": [("counter", 1024, None, 20, 30)], "conc": [("rmw", 500)], "relevant": "RMT",
             "known_classes": True},
     "C16": {"seq": [("policy", 1024, 200, 10, 30)], "conc": [("base", 250), ("rmw", 250)], "sweep": 300, "pol": 100, "relevant": "T",
@@ -487,6 +593,7 @@ def run_conc_suites(prop, cfg, tier, seed, work, report):
         except Exception:
             pass
         traces = dict(split_cases(open(tout).read()))
+        report.setdefault("conc_trace_files", []).append(tout)
         for x in d:
             diffs.append((tag,) + x)
         for line in open(mon).read().splitlines():
@@ -598,6 +705,7 @@ def run_conc_suites(prop, cfg, tier, seed, work, report):
                     report["distribution"]["policy_conc_" + kind] = sum(l.count(kind + ":") for l in txt.splitlines() if l.startswith("PTH "))
                 report["distribution"]["policy_conc_scans"] = sum(len(l.split(";")) for l in txt.splitlines() if l.startswith("PSCANS ") and l != "PSCANS none")
                 traces = dict(split_cases(txt))
+                report.setdefault("conc_trace_files", []).append(tout)
                 for x in d:
                     diffs.append((tag,) + x)
                 for line in open(mon).read().splitlines():
